@@ -42,6 +42,7 @@ def run(ctx: Ctx, rep: Report) -> None:
     rep.rule("C10-R5", "RFC 3414 A.2 key derivation constants and localisation", floor=5)
     rep.rule("C10-R6", "incoming digest over the received bytes or a canonical (minimal-length) re-serialisation", floor=4)
     rep.rule("C10-R7", "an authentic message is accepted", floor=1)
+    rep.rule("C10-R9", "encrypted requests and responses: the privacy plug-in is called with the localised key and the message's own engine id, boots, time and salt; the plaintext parsed is its output (shared with C11-R1/R2/R3)", floor=8)
     rep.rule("C10-R8", "the re-serialisation used for the incoming digest reproduces every received field: decoders and encoders agree and decoding is lossless (shared with C06-R3)", floor=8)
     rep.assumptions += [
         "hashlib / hmac implement MD5, SHA-1 and HMAC (hash arithmetic is not analysed)",
@@ -300,6 +301,7 @@ def run(ctx: Ctx, rep: Report) -> None:
 
     sub = ctx.sub_run("c06", rep)
     rep.adopt_rules(sub, "C10-R8", ["C06-R3"])
+    rep.adopt_rules(ctx.sub_run("c11", rep), "C10-R9", ["C11-R1", "C11-R2", "C11-R3"])
 
 
 def check_derivation(ctx: Ctx, rep: Report, outer: FuncInfo, fn: FuncInfo) -> None:
